@@ -220,7 +220,8 @@ type Atom uint64
 // NewAtom interns the given string and returns an Atom.
 func NewAtom(name string) Atom {
 	// A one-char atom is just a rune.
-	if r, n := utf8.DecodeLastRuneInString(name); r != utf8.RuneError && n == len(name) {
+	// utf8.RuneError with the width of its encoding is a genuine U+FFFD, not a decoding failure.
+	if r, n := utf8.DecodeLastRuneInString(name); n == len(name) && (r != utf8.RuneError || n == utf8.RuneLen(utf8.RuneError)) {
 		return Atom(r)
 	}
 
